@@ -21,7 +21,7 @@ fn main() {
     let seed: u64 = args[3].parse().expect("seed");
     let thorough = args[4] == "thorough";
     let dir = PathBuf::from(&args[5]);
-    util::quiet_panics();
+    if std::env::var("P2H_LOUD").is_err() { util::quiet_panics(); }
     let mut e = util::Emitter::new(&dir);
     let extra = serde_json::json!({});
     match prop {
